@@ -236,6 +236,20 @@ bool WebSocket::connect(const String& uri, int port)
 		return false;
 	}
 
+	// RFC 6455 4.1: the connection is only established if the server returns the accept value derived from our key
+	SHA1::Hash hash = SHA1::hash(key64 + "258EAFA5-E914-47DA-95CA-C5AB0DC85B11");
+	String accept;
+	foreach2(String& name, String& value, headers)
+	{
+		if (name.toLowerCase() == "sec-websocket-accept")
+			accept = value;
+	}
+	if (accept != encodeBase64(hash, hash.length()))
+	{
+		_socket.close();
+		return false;
+	}
+
 	_closed = false;
 
 	return true;
